@@ -45,7 +45,8 @@ THEOREMS = [T + n for n in [
     "second_input_refused", "close_idempotent", "close_always_possible", "no_notification_after_close_returns",
     "wait_group_counts_goroutines", "close_returns", "close_cancels_context",
     # foreach provider
-    "foreach_traces_legal_partial", "foreach_traces_legal_counterexample", "foreach_only_undeclared_transition",
+    "foreach_traces_legal", "foreach_all_transitions_declared", "foreach_traces_legal_counterexample_old_lifecycle",
+    "foreach_lifecycle_differs_by_execute_closed",
     "foreach_exactly_one_completion", "foreach_run_ends_with_one_completion", "foreach_provide_never_blocks",
     "foreach_close_waits_for_pending_provider", "foreach_no_notification_after_close_returns",
     "foreach_close_right_after_start_waits", "foreach_close_idempotent",
@@ -79,7 +80,7 @@ PLUGIN_KINDS = {
 FOREACH_KINDS = {
     "illegal-trace:undeclared-transition:execute->closed":
         ("illegal-trace:undeclared-transition:execute->closed",
-         "a foreach step closed while waiting for its items goes execute -> closed (runOnInput -> closedEarly), but the lifecycle "
+         "(regression: closed must stay declared as a next stage of execute) a foreach step closed while waiting for its items goes execute -> closed (runOnInput -> closedEarly), but the lifecycle "
          "declares closed as a next stage of enabling only"),
     "illegal-trace:no-completion":
         ("foreach-no-completion",
